@@ -4,21 +4,29 @@ import (
 	"fmt"
 	"go/ast"
 	"go/token"
+	"os"
 	"strconv"
 	"strings"
 )
 
-// Records, for (*AgentIPC).filterMembers in cmd/serf/command/agent/ipc.go:
-//   - every place a filter expression is compiled ("site"): either
-//     compileAnchored(<ident>)                               → (ident, "compileAnchored")
-//     regexp.Compile(fmt.Sprintf(<string literal>, <ident>)) → (ident, "Sprintf:<format>")   (the pre-990828f shape: paste, then compile)
-//     Any other use of package regexp in filterMembers is an error;
-//   - the body of the helper compileAnchored(expr), which must be exactly
-//     if _, err := regexp.Compile(<param>); err != nil { return nil, err }   → "validate:<param>"
-//     return regexp.Compile(fmt.Sprintf(<string literal>, <param>))            → "wrap:<format>:<param>"
-//     (validate-alone, then wrap); any other statement is an error. No helper: no steps;
-//   - the skip conditions of the member loop (every `if` whose body is a `continue`), as source text;
-//   - the statement that appends to the result.
+// Translation of the member filter (cmd/serf/command/agent/ipc.go) into the vocabulary of
+// SerfModel/Model/Regex.lean (CompileStep, Guard, FilterShape):
+//   - compileAnchored(expr), statement by statement:
+//     if _, err := regexp.Compile(<param>); err != nil { return nil, err }   → .validateAlone
+//     return regexp.Compile(fmt.Sprintf(<string literal>, <param>))            → .wrap <format>
+//     any other statement is an error;
+//   - filterMembers: every place a filter expression is compiled ("site": variable, argument, how —
+//     compileAnchored or the pre-990828f `Sprintf:<format>` paste-then-compile), the tag pre-compile loop
+//     (for tag, expr := range tags { re, err := <site>(expr); …; tagsRe[tag] = re }), the first result of every
+//     `return` under `if err != nil` (must be nil: no list on error);
+//   - the member loop, guard by guard:
+//     for tag := range tags { if !tagsRe[tag].MatchString(m.Tags[tag]) { continue OUTER } }                         → .tags .valueOrEmpty
+//     for tag, re := range tagsRe { val, ok := m.Tags[tag]; if !ok || !re.MatchString(val) { continue OUTER } }       → .tags .presentOnly
+//     if [status != "" &&] !statusRe.MatchString(m.Status.String()) { continue }                                      → .field .status <bool>
+//     if [name != "" &&] !nameRe.MatchString(m.Name) { continue }                                                     → .field .name <bool>
+//     result = append(result, m)                                                                                       (last)
+//     where statusRe / nameRe must be the variables compiled from status / name; anything else is an error;
+//   - handleMembers: the statement following `raw, err = i.filterMembers(…)` (must return the error before any Send).
 
 // sprintfTemplate recognises regexp.Compile(fmt.Sprintf(<lit>, <ident>)).
 func sprintfTemplate(x *ast.CallExpr) (format, arg string, ok bool) {
@@ -49,21 +57,16 @@ func helperSteps(fd *ast.FuncDecl) ([]string, error) {
 	for _, st := range fd.Body.List {
 		switch s := st.(type) {
 		case *ast.IfStmt:
-			// if _, err := regexp.Compile(<param>); err != nil { return nil, err }
 			as, ok := s.Init.(*ast.AssignStmt)
 			if !ok || s.Else != nil || len(as.Lhs) != 2 || len(as.Rhs) != 1 || exprString(as.Lhs[0]) != "_" || exprString(as.Lhs[1]) != "err" ||
 				exprString(s.Cond) != "err != nil" || len(s.Body.List) != 1 || exprString(s.Body.List[0]) != "return nil, err" {
 				return nil, fmt.Errorf("compileAnchored: unsupported statement %s", exprString(s))
 			}
 			c, ok := as.Rhs[0].(*ast.CallExpr)
-			if !ok || exprString(c.Fun) != "regexp.Compile" || len(c.Args) != 1 {
+			if !ok || exprString(c.Fun) != "regexp.Compile" || len(c.Args) != 1 || !isIdent(c.Args[0], "expr") {
 				return nil, fmt.Errorf("compileAnchored: unsupported validation %s", exprString(as))
 			}
-			id, ok := c.Args[0].(*ast.Ident)
-			if !ok {
-				return nil, fmt.Errorf("compileAnchored: validation of a non-identifier %s", exprString(c))
-			}
-			steps = append(steps, "validate:"+id.Name)
+			steps = append(steps, ".validateAlone")
 		case *ast.ReturnStmt:
 			if len(s.Results) != 1 {
 				return nil, fmt.Errorf("compileAnchored: unsupported return %s", exprString(s))
@@ -73,15 +76,83 @@ func helperSteps(fd *ast.FuncDecl) ([]string, error) {
 				return nil, fmt.Errorf("compileAnchored: unsupported return %s", exprString(s))
 			}
 			format, arg, ok := sprintfTemplate(c)
-			if !ok {
+			if !ok || arg != "expr" {
 				return nil, fmt.Errorf("compileAnchored: unsupported return %s", exprString(s))
 			}
-			steps = append(steps, "wrap:"+format+":"+arg)
+			steps = append(steps, fmt.Sprintf(".wrap %q", format))
 		default:
 			return nil, fmt.Errorf("compileAnchored: unsupported statement %s", exprString(st))
 		}
 	}
 	return steps, nil
+}
+
+type reSite struct{ v, arg, how string }
+
+// compileSite recognises `<v>, err := compileAnchored(<arg>)` / `<v>, err := regexp.Compile(fmt.Sprintf(lit, <arg>))`.
+func compileSite(st ast.Stmt) (reSite, bool, error) {
+	as, ok := st.(*ast.AssignStmt)
+	if !ok || len(as.Rhs) != 1 {
+		return reSite{}, false, nil
+	}
+	c, ok := as.Rhs[0].(*ast.CallExpr)
+	if !ok {
+		return reSite{}, false, nil
+	}
+	fn := exprString(c.Fun)
+	if fn != "compileAnchored" && !strings.HasPrefix(fn, "regexp.") {
+		return reSite{}, false, nil
+	}
+	if len(as.Lhs) != 2 || exprString(as.Lhs[1]) != "err" {
+		return reSite{}, false, fmt.Errorf("unsupported compile statement %s", exprString(st))
+	}
+	v := exprString(as.Lhs[0])
+	if fn == "compileAnchored" {
+		if len(c.Args) != 1 {
+			return reSite{}, false, fmt.Errorf("unsupported call %s", exprString(c))
+		}
+		id, ok := c.Args[0].(*ast.Ident)
+		if !ok {
+			return reSite{}, false, fmt.Errorf("compileAnchored of a non-identifier: %s", exprString(c))
+		}
+		return reSite{v, id.Name, "compileAnchored"}, true, nil
+	}
+	format, arg, ok := sprintfTemplate(c)
+	if !ok {
+		return reSite{}, false, fmt.Errorf("unsupported use of package regexp: %s", exprString(c))
+	}
+	return reSite{v, arg, "Sprintf:" + format}, true, nil
+}
+
+// matchCall recognises !<re>.MatchString(<subject>).
+func negMatch(e ast.Expr) (re, subject string, ok bool) {
+	u, ok := e.(*ast.UnaryExpr)
+	if !ok || u.Op != token.NOT {
+		return "", "", false
+	}
+	c, ok := u.X.(*ast.CallExpr)
+	if !ok || len(c.Args) != 1 {
+		return "", "", false
+	}
+	sel, ok := c.Fun.(*ast.SelectorExpr)
+	if !ok || sel.Sel.Name != "MatchString" {
+		return "", "", false
+	}
+	return exprString(sel.X), exprString(c.Args[0]), true
+}
+
+func isContinue(b *ast.BlockStmt, label string) bool {
+	if len(b.List) != 1 {
+		return false
+	}
+	br, ok := b.List[0].(*ast.BranchStmt)
+	if !ok || br.Tok != token.CONTINUE {
+		return false
+	}
+	if label == "" {
+		return br.Label == nil
+	}
+	return br.Label != nil && br.Label.Name == label
 }
 
 func genAnchorTemplate(repo string) (string, error) {
@@ -93,90 +164,259 @@ func genAnchorTemplate(repo string) (string, error) {
 	if fd == nil {
 		return "", fmt.Errorf("filterMembers not found")
 	}
-	type site struct{ arg, how string }
-	var sites []site
-	var guards, appends []string
-	var bad error
-	ast.Inspect(fd.Body, func(n ast.Node) bool {
-		switch x := n.(type) {
-		case *ast.CallExpr:
-			fn := exprString(x.Fun)
-			if fn == "compileAnchored" {
-				if len(x.Args) != 1 {
-					bad = fmt.Errorf("unsupported call %s", exprString(x))
-					return false
-				}
-				id, ok := x.Args[0].(*ast.Ident)
-				if !ok {
-					bad = fmt.Errorf("compileAnchored of a non-identifier: %s", exprString(x))
-					return false
-				}
-				sites = append(sites, site{id.Name, "compileAnchored"})
+	if sig := exprString(fd.Type); sig != "func(members []serf.Member, tags map[string]string, status string, name string) ([]serf.Member, error)" {
+		return "", fmt.Errorf("filterMembers signature %s", sig)
+	}
+	var sites []reSite
+	var errReturns []string
+	var loop *ast.RangeStmt
+	label := ""
+	sawReturn := false
+	for _, st := range fd.Body.List {
+		if sawReturn {
+			return "", fmt.Errorf("statement after the final return")
+		}
+		switch s := st.(type) {
+		case *ast.AssignStmt:
+			if site, ok, err := compileSite(s); err != nil {
+				return "", err
+			} else if ok {
+				sites = append(sites, site)
+				continue
 			}
-			if strings.HasPrefix(fn, "regexp.") {
-				format, arg, ok := sprintfTemplate(x)
-				if !ok {
-					bad = fmt.Errorf("unsupported use of package regexp: %s", exprString(x))
-					return false
-				}
-				sites = append(sites, site{arg, "Sprintf:" + format})
-				return false
+			txt := exprString(s)
+			if txt != "result := make([]serf.Member, 0, len(members))" && txt != "tagsRe := make(map[string]*regexp.Regexp)" {
+				return "", fmt.Errorf("unsupported statement %s", txt)
 			}
-			if isIdent(x.Fun, "append") && len(x.Args) > 0 && isIdent(x.Args[0], "result") {
-				appends = append(appends, exprString(x))
+		case *ast.RangeStmt:
+			// the tag pre-compile loop
+			if exprString(s.X) != "tags" || exprString(s.Key) != "tag" || s.Value == nil || len(s.Body.List) != 3 {
+				return "", fmt.Errorf("unsupported loop over %s", exprString(s.X))
+			}
+			site, ok, err := compileSite(s.Body.List[0])
+			if err != nil || !ok || site.arg != exprString(s.Value) {
+				return "", fmt.Errorf("tag loop does not compile its value: %s", exprString(s.Body.List[0]))
+			}
+			ifs, ok := s.Body.List[1].(*ast.IfStmt)
+			if !ok || exprString(ifs.Cond) != "err != nil" || len(ifs.Body.List) != 1 {
+				return "", fmt.Errorf("tag loop: unsupported %s", exprString(s.Body.List[1]))
+			}
+			ret, ok := ifs.Body.List[0].(*ast.ReturnStmt)
+			if !ok || len(ret.Results) != 2 {
+				return "", fmt.Errorf("tag loop: unsupported %s", exprString(ifs))
+			}
+			errReturns = append(errReturns, exprString(ret.Results[0]))
+			if exprString(s.Body.List[2]) != "tagsRe[tag] = "+site.v {
+				return "", fmt.Errorf("tag loop: unsupported %s", exprString(s.Body.List[2]))
+			}
+			sites = append(sites, reSite{"tagsRe[tag]", "tags[tag]", site.how})
+		case *ast.IfStmt:
+			if exprString(s.Cond) != "err != nil" || s.Init != nil || s.Else != nil || len(s.Body.List) != 1 {
+				return "", fmt.Errorf("unsupported statement %s", exprString(s))
+			}
+			ret, ok := s.Body.List[0].(*ast.ReturnStmt)
+			if !ok || len(ret.Results) != 2 {
+				return "", fmt.Errorf("unsupported statement %s", exprString(s))
+			}
+			errReturns = append(errReturns, exprString(ret.Results[0]))
+		case *ast.LabeledStmt:
+			r, ok := s.Stmt.(*ast.RangeStmt)
+			if !ok || loop != nil {
+				return "", fmt.Errorf("unsupported labeled statement")
+			}
+			loop, label = r, s.Label.Name
+		case *ast.ReturnStmt:
+			if exprString(s) != "return result, nil" {
+				return "", fmt.Errorf("unsupported final return %s", exprString(s))
+			}
+			sawReturn = true
+		default:
+			return "", fmt.Errorf("unsupported statement %s", exprString(st))
+		}
+	}
+	if loop == nil || !sawReturn {
+		return "", fmt.Errorf("member loop or final return not found")
+	}
+	if exprString(loop.X) != "members" || exprString(loop.Key) != "_" || exprString(loop.Value) != "m" {
+		return "", fmt.Errorf("member loop is not `for _, m := range members`")
+	}
+	siteArg := map[string]string{}
+	for _, s := range sites {
+		siteArg[s.v] = s.arg
+	}
+	var guards []string
+	body := loop.Body.List
+	if len(body) == 0 || exprString(body[len(body)-1]) != "result = append(result, m)" {
+		return "", fmt.Errorf("member loop does not end with result = append(result, m)")
+	}
+	for _, st := range body[:len(body)-1] {
+		switch s := st.(type) {
+		case *ast.RangeStmt:
+			switch {
+			case exprString(s.X) == "tags" && exprString(s.Key) == "tag" && s.Value == nil && len(s.Body.List) == 1:
+				ifs, ok := s.Body.List[0].(*ast.IfStmt)
+				if !ok || ifs.Init != nil || ifs.Else != nil || !isContinue(ifs.Body, label) {
+					return "", fmt.Errorf("unsupported tag guard %s", exprString(s))
+				}
+				re, subj, ok := negMatch(ifs.Cond)
+				if !ok || re != "tagsRe[tag]" || subj != "m.Tags[tag]" {
+					return "", fmt.Errorf("unsupported tag guard %s", exprString(ifs.Cond))
+				}
+				guards = append(guards, ".tags .valueOrEmpty")
+			case exprString(s.X) == "tagsRe" && exprString(s.Key) == "tag" && s.Value != nil && len(s.Body.List) == 2:
+				re := exprString(s.Value)
+				if exprString(s.Body.List[0]) != "val, ok := m.Tags[tag]" {
+					return "", fmt.Errorf("unsupported tag guard %s", exprString(s.Body.List[0]))
+				}
+				ifs, ok := s.Body.List[1].(*ast.IfStmt)
+				if !ok || ifs.Init != nil || ifs.Else != nil || !isContinue(ifs.Body, label) {
+					return "", fmt.Errorf("unsupported tag guard %s", exprString(s))
+				}
+				be, ok := ifs.Cond.(*ast.BinaryExpr)
+				if !ok || be.Op != token.LOR || exprString(be.X) != "!ok" {
+					return "", fmt.Errorf("unsupported tag guard %s", exprString(ifs.Cond))
+				}
+				r2, subj, ok := negMatch(be.Y)
+				if !ok || r2 != re || subj != "val" {
+					return "", fmt.Errorf("unsupported tag guard %s", exprString(ifs.Cond))
+				}
+				guards = append(guards, ".tags .presentOnly")
+			default:
+				return "", fmt.Errorf("unsupported loop in the member loop: %s", exprString(s))
 			}
 		case *ast.IfStmt:
-			if len(x.Body.List) == 1 {
-				if br, ok := x.Body.List[0].(*ast.BranchStmt); ok && br.Tok == token.CONTINUE {
-					guards = append(guards, exprString(x.Cond))
-				}
+			if s.Init != nil || s.Else != nil || !isContinue(s.Body, "") {
+				return "", fmt.Errorf("unsupported guard %s", exprString(s))
 			}
+			cond := s.Cond
+			skip, pat := "false", ""
+			if be, ok := cond.(*ast.BinaryExpr); ok && be.Op == token.LAND {
+				l, ok := be.X.(*ast.BinaryExpr)
+				if !ok || l.Op != token.NEQ || exprString(l.Y) != `""` {
+					return "", fmt.Errorf("unsupported guard %s", exprString(cond))
+				}
+				skip, pat, cond = "true", exprString(l.X), be.Y
+			}
+			re, subj, ok := negMatch(cond)
+			if !ok {
+				return "", fmt.Errorf("unsupported guard %s", exprString(s.Cond))
+			}
+			arg, known := siteArg[re]
+			if !known || (pat != "" && pat != arg) {
+				return "", fmt.Errorf("guard %s: %s is not the expression compiled from %s", exprString(s.Cond), re, pat)
+			}
+			var field string
+			switch {
+			case arg == "status" && subj == "m.Status.String()":
+				field = ".status"
+			case arg == "name" && subj == "m.Name":
+				field = ".name"
+			default:
+				return "", fmt.Errorf("guard %s: the %s filter is matched against %s", exprString(s.Cond), arg, subj)
+			}
+			guards = append(guards, fmt.Sprintf(".field %s %s", field, skip))
+		default:
+			return "", fmt.Errorf("unsupported statement in the member loop: %s", exprString(st))
 		}
-		return true
-	})
-	if bad != nil {
-		return "", bad
-	}
-	if len(sites) == 0 {
-		return "", fmt.Errorf("no filter expression is compiled in filterMembers")
 	}
 	var steps []string
+	usesHelper := false
+	for _, s := range sites {
+		if s.how == "compileAnchored" {
+			usesHelper = true
+		}
+	}
 	if h := findFunc(f, "", "compileAnchored"); h != nil {
 		steps, err = helperSteps(h)
 		if err != nil {
 			return "", err
 		}
-	} else {
+	} else if usesHelper {
+		return "", fmt.Errorf("compileAnchored is called but not declared in ipc.go")
+	}
+	if !usesHelper {
+		// paste-then-compile at the sites: the compile steps are the single wrap of the (common) format
+		steps = nil
 		for _, s := range sites {
-			if s.how == "compileAnchored" {
-				return "", fmt.Errorf("compileAnchored is called but not declared in ipc.go")
+			if s.v == "re" {
+				continue
+			}
+			st := fmt.Sprintf(".wrap %q", strings.TrimPrefix(s.how, "Sprintf:"))
+			if len(steps) == 0 {
+				steps = []string{st}
+			} else if steps[0] != st {
+				return "", fmt.Errorf("the compile sites use different templates")
 			}
 		}
 	}
-	q := func(l []string) string {
-		var o []string
-		for _, s := range l {
-			o = append(o, fmt.Sprintf("%q", s))
-		}
-		return "[" + strings.Join(o, ", ") + "]"
+	// handleMembers: what follows the call
+	hm := findFunc(f, "AgentIPC", "handleMembers")
+	if hm == nil {
+		return "", fmt.Errorf("handleMembers not found")
 	}
+	onError := ""
+	ast.Inspect(hm.Body, func(n ast.Node) bool {
+		b, ok := n.(*ast.BlockStmt)
+		if !ok {
+			return true
+		}
+		for i, st := range b.List {
+			if as, ok := st.(*ast.AssignStmt); ok && len(as.Rhs) == 1 && strings.HasPrefix(exprString(as.Rhs[0]), "i.filterMembers(") {
+				onError = "call:" + exprString(as)
+				if i+1 < len(b.List) {
+					onError += " | next:" + strings.Join(strings.Fields(exprString(b.List[i+1])), " ")
+				}
+			}
+		}
+		return true
+	})
+	// docs/commands/members.html.markdown: which filter options are documented as a full match
+	docB, err := os.ReadFile(repo + "/docs/commands/members.html.markdown")
+	if err != nil {
+		return "", err
+	}
+	var docFacts []string
+	for _, para := range strings.Split(string(docB), "\n\n") {
+		txt := strings.Join(strings.Fields(para), " ")
+		if !strings.HasPrefix(txt, "* `-") {
+			continue
+		}
+		opt := strings.SplitN(strings.TrimPrefix(txt, "* `"), "`", 2)[0]
+		if !strings.Contains(txt, "regular expression") {
+			continue
+		}
+		full := strings.Contains(txt, "anchored at the start and end") && strings.Contains(txt, "must be a full match")
+		docFacts = append(docFacts, fmt.Sprintf("(%q, %v)", strings.Fields(opt)[0], full))
+	}
+	q := func(l []string) string { return "[" + strings.Join(l, ", ") + "]" }
 	var b strings.Builder
-	b.WriteString("-- GENERATED by /verif/extract from /repo/cmd/serf/command/agent/ipc.go (filterMembers, compileAnchored) — do not edit.\n")
-	b.WriteString("namespace SerfModel.Gen.AnchorTemplate\n\n")
-	b.WriteString("/-- every place `filterMembers` compiles a filter expression: (argument, how) with how =\n`compileAnchored` (the helper) or `Sprintf:<format>` (pasted into the format and compiled directly) -/\n")
-	b.WriteString("def sites : List (String × String) := [")
-	for i, s := range sites {
-		if i > 0 {
+	b.WriteString("-- GENERATED by /verif/extract from /repo/cmd/serf/command/agent/ipc.go (filterMembers, compileAnchored, handleMembers) — do not edit.\n")
+	b.WriteString("import SerfModel.Model.Regex\nnamespace SerfModel.Gen.AnchorTemplate\nopen SerfModel.Regex\n\n")
+	b.WriteString("/-- `compileAnchored`, statement by statement, and the member loop of `filterMembers`, guard by guard -/\n")
+	fmt.Fprintf(&b, "def shape : FilterShape :=\n  { compile := %s\n    guards := %s }\n\n", q(steps), q(guards))
+	b.WriteString("/-- every place `filterMembers` compiles a filter expression: (variable, argument, how) -/\n")
+	b.WriteString("def sites : List (String × String × String) := [")
+	n := 0
+	for _, s := range sites {
+		if s.v == "re" {
+			continue
+		}
+		if n > 0 {
 			b.WriteString(", ")
 		}
-		fmt.Fprintf(&b, "(%q, %q)", s.arg, s.how)
+		n++
+		fmt.Fprintf(&b, "(%q, %q, %q)", s.v, s.arg, s.how)
 	}
-	b.WriteString("]\n\n/-- the body of `compileAnchored`, statement by statement: `validate:<x>` = `regexp.Compile(x)` alone,\nits error returned; `wrap:<format>:<x>` = return `regexp.Compile(fmt.Sprintf(format, x))` -/\n")
-	fmt.Fprintf(&b, "def helperSteps : List String := %s\n", q(steps))
-	b.WriteString("\n/-- the conditions under which the member loop skips a member -/\n")
-	fmt.Fprintf(&b, "def guards : List String := %s\n", q(guards))
-	b.WriteString("\n/-- how a member that passed every guard is kept -/\n")
-	fmt.Fprintf(&b, "def appends : List String := %s\n", q(appends))
+	b.WriteString("]\n\n/-- the list returned with an error (first result of every `return` under `if err != nil`) -/\n")
+	var er []string
+	for _, e := range errReturns {
+		er = append(er, fmt.Sprintf("%q", e))
+	}
+	fmt.Fprintf(&b, "def errorReturns : List String := %s\n\n", q(er))
+	b.WriteString("/-- `handleMembers`: the call of the filter and the statement that follows it -/\n")
+	fmt.Fprintf(&b, "def handler : String := %q\n", onError)
+	b.WriteString("\n/-- docs/commands/members.html.markdown: every option documented as a regular-expression filter, and\nwhether its paragraph says \"anchored at the start and end, and must be a full match\" -/\n")
+	fmt.Fprintf(&b, "def documentedFilters : List (String × Bool) := %s\n", q(docFacts))
 	b.WriteString("\nend SerfModel.Gen.AnchorTemplate\n")
 	return b.String(), nil
 }
